@@ -122,14 +122,14 @@ theorem ok_drawImage (env : Env) (s : St) {p : Page} (id : Nat) (clip cm a1 : By
   simp only [Option.some.injEq] at hq
   subst hq
   apply ok_write
-  apply ok_setAlpha
-  refine ok_grow (ok_write clip h) ⟨fun _ h => h, fun _ h => h, fun x hx => ?_, fun _ h => h⟩ (fun u hu => ?_)
+  have h0 := ok_write clip (ok_setAlpha env.alpha1 a1 h)
+  refine ok_grow h0 ⟨fun _ h => h, fun _ h => h, fun x hx => ?_, fun _ h => h⟩ (fun u hu => ?_)
   · simp only [List.map_append, List.mem_append]; exact Or.inl hx
   · simp only [List.mem_append, List.mem_singleton] at hu
     rcases hu with hu | rfl
     · exact Or.inl hu
     · right
-      show _ ∈ ((p.write clip).xobjs ++ [_]).map (fun (e : Bytes × Nat) => e.1)
+      show _ ∈ (((p.setAlpha env.alpha1 a1).write clip).xobjs ++ [_]).map (fun (e : Bytes × Nat) => e.1)
       simp
 
 /-! ### invariant over histories -/
